@@ -156,7 +156,7 @@ def gen_value(rnd, tname, hostile=True):
             "2022-03-04T05:06:07.000008+00:00",
         ])
     if tname == "filesize":
-        return rnd.choice([0, 1, 1023, 1024, 10 ** 6, 5 * 2 ** 40, -5, 10 ** 16, rnd.randint(0, 10 ** 12)])
+        return rnd.choice([0, 1, 1023, 1024, 10 ** 6, 5 * 2 ** 40, -5, 10 ** 16, 2 * 10 ** 17, rnd.randint(0, 10 ** 12)])
     if tname == "unix_file_mode":
         return rnd.choice([0, 0o644, 0o100755, 0o7777])
     if tname == "digest":
@@ -644,6 +644,20 @@ def run_sequence(ctx, rep, rnd, idx, recs, workdir, cfgname="gen_cfg", collect=N
                  dict(kind="text-form", type=e.tname, value=e.value_desc, error=err))
         ctx.count_case(("textform", e.tname, e.value_desc))
         return []
+    # GroupedRecord keeps its own attributes (name, records, ...) in the instance dict: a member field of that
+    # name is shadowed in _asdict() -- every writer then renders the group's attribute instead of the field
+    from flow.record.base import GroupedRecord
+    for r, obs in zip(recs, obss):
+        if isinstance(r, GroupedRecord):
+            d = {it[0]: it for it in flat_items(obs)}
+            got = r._asdict()
+            bad = [k for k in d if k in vars(r) and (None if got.get(k) is None else str(got.get(k))) != d[k][2]]
+            if bad:
+                rep.fail(dict(cls="grouped-attr-shadow"),
+                         "GroupedRecord._asdict() returns the group's own attribute %r instead of the member field %r = %r" % (
+                             got.get(bad[0]), bad[0], d[bad[0]][2]), dict(kind="grouped-shadow", field=bad[0], records=[repr(x) for x in obss]))
+                ctx.count_case(("grouped-shadow", bad[0], repr(obs)))
+                return []
     recs_term = clist(c_rec(o) for o in obss)
     sel = gen_select_opts(rnd, recs)
     terms = []
@@ -862,6 +876,7 @@ def read_cases(ctx, rep, rnd, n, workdir, written):
     """CSV files with unambiguous content (safe cells, sniffable delimiter) read back as records with the same text
     values; `written` are outputs of CsvfileWriter with safe content."""
     from flow.record import RecordReader
+    from flow.record.base import normalize_fieldname
     terms, metas = [], []
     files = []
     for i in range(n):
@@ -917,7 +932,8 @@ def read_cases(ctx, rep, rnd, n, workdir, written):
             rep.fail(dict(writer="reader", cls="raises"), "CsvfileReader raised %s on an unambiguous CSV file" % err, dict(error=err, **meta))
             continue
         cells_got = [[v for _, v in row] for row in got]
-        keep = [j for j, h in enumerate(hdr) if not (h.startswith("_"))]
+        # columns whose normalised name starts with "_" (the reserved names) are internal, not record fields
+        keep = [j for j, h in enumerate(hdr) if not normalize_fieldname(h).startswith("_")]
         cells_want = [[r[j] for j in keep] for r in body]
         if cells_got != cells_want:
             rep.fail(dict(writer="reader", cls="values-differ"),
